@@ -48,10 +48,13 @@ func (m *vRmgr) AddNode(_ context.Context, name string, res resourcetypes.Resour
 	return vRes(vAmount(res)), nil
 }
 
-func (m *vRmgr) RemoveNode(_ context.Context, name string) error {
+func (m *vRmgr) RemoveNode(ctx context.Context, name string) error {
 	defer vGuard()()
 	if m.w.fault("rmgr.RemoveNode") {
 		return vErrInjected
+	}
+	if err := ctx.Err(); err != nil {
+		return err // the real manager talks to its plugins / the store: a dead context fails the call
 	}
 	delete(m.w.capacity, name)
 	delete(m.w.usage, name)
@@ -98,6 +101,12 @@ func (s *vStore) AddNode(_ context.Context, opts *types.AddNodeOptions) (*types.
 	defer vGuard()()
 	if s.w != nil && s.w.fault("store.AddNode") {
 		return nil, vErrInjected
+	}
+	if s.w != nil && s.w.cancelCaller != nil && vBool("caller_gives_up_during_the_store_write") {
+		s.w.cancelCaller() // the client went away: the write fails with its context
+		s.w.cancelCaller = nil
+		vCover("caller-gave-up", true)
+		return nil, context.Canceled
 	}
 	n := &types.Node{NodeMeta: types.NodeMeta{Name: opts.Nodename, Podname: opts.Podname, Endpoint: opts.Endpoint, Labels: opts.Labels}}
 	s.nodes[opts.Nodename] = n
@@ -156,7 +165,12 @@ func VerifAddNodeOp(arg string) {
 	if vNativeRun {
 		w.calls = 2
 	}
-	_, err := c.AddNode(context.Background(), &types.AddNodeOptions{Nodename: "b", Podname: "p1", Endpoint: "mock://e1", Resources: vRes(amount)})
+	ctx, cancel := context.WithCancel(context.Background())
+	defer cancel()
+	if vParam(arg, "cancel", 0) == 1 {
+		w.cancelCaller = cancel
+	}
+	_, err := c.AddNode(ctx, &types.AddNodeOptions{Nodename: "b", Podname: "p1", Endpoint: "mock://e1", Resources: vRes(amount)})
 	vObserve("fault_site", w.site)
 	_, inStore := w.st.nodes["b"]
 	_, hasCap := w.capacity["b"]
